@@ -124,4 +124,15 @@ theorem flush_timers {k : Consts} (s : Loop) (hg : Good k s) (t : DevTree) :
   have e : Int.ofNat (k.mxCap * 1000) = Int.ofNat k.mxCap * 1000 := by simp
   omega
 
+theorem outsFrom_eq (k : Consts) (t : DevTree) : ∀ (evs : List Ev) (now : Int),
+    outsFrom k t now evs = (recvsFrom now evs).flatMap fun x => outsOf k t x.1 x.2.1 x.2.2.1 x.2.2.2 := by
+  intro evs
+  induction evs with
+  | nil => intro now; rfl
+  | cons e evs ih =>
+    intro now
+    cases e with
+    | advance dt => simp only [outsFrom, recvsFrom, ih]
+    | recv r req sel => simp only [outsFrom, recvsFrom, ih, List.flatMap_cons]
+
 end Upnp.C13
